@@ -496,14 +496,23 @@ func (c *Ctx) ruleInverseTables(rr *RuleRep) {
 	maskOf := func(v ssa.Value) (int64, bool) {
 		// (publishFlag(flag) & m) != 0
 		bin, ok := v.(*ssa.BinOp)
-		if !ok || bin.Op != token.NEQ {
+		if !ok || (bin.Op != token.NEQ && bin.Op != token.EQL) {
 			return 0, false
 		}
 		and, ok := bin.X.(*ssa.BinOp)
 		if !ok || and.Op != token.AND || c.Resolve(stripConv(and.X)) != ssa.Value(flag) {
 			return 0, false
 		}
-		return constInt(and.Y)
+		m, isM := constInt(and.Y)
+		k, isK := constInt(bin.Y)
+		if !isM || !isK {
+			return 0, false
+		}
+		// (flag & m) != 0   or   (flag & m) == m   (single-bit mask)
+		if (bin.Op == token.NEQ && k == 0) || (bin.Op == token.EQL && k == m && m&(m-1) == 0) {
+			return m, true
+		}
+		return 0, false
 	}
 	for _, fld := range []struct {
 		name string
@@ -1093,13 +1102,21 @@ func (c *Ctx) ruleRejectBeforeWrite(rr *RuleRep) {
 				if k, ok := constInt(bin.Y); ok && ((bin.Op == token.GTR && k == 2) || (bin.Op == token.GEQ && k == 3)) && rejects(0, "ErrInvalidQoS") {
 					qosOK = true
 				}
+				if k, ok := constInt(bin.Y); ok && ((bin.Op == token.LEQ && k == 2) || (bin.Op == token.LSS && k == 3)) && rejects(1, "ErrInvalidQoS") {
+					qosOK = true
+				}
 			}
 			// len(message.Payload) >= c.MaxPayloadLen (or >)
 			if call, ok := bin.X.(*ssa.Call); ok {
 				if bi, ok := call.Call.Value.(*ssa.Builtin); ok && bi.Name() == "len" {
 					if base, isP := isFieldLoad(call.Call.Args[0], "Message", "Payload"); isP && c.Resolve(base) == ssa.Value(msg) {
-						if _, isM := isFieldLoad(bin.Y, "BaseClient", "MaxPayloadLen"); isM && (bin.Op == token.GEQ || bin.Op == token.GTR) && rejects(0, "ErrPayloadLenExceeded") {
-							lenOK = true
+						if _, isM := isFieldLoad(bin.Y, "BaseClient", "MaxPayloadLen"); isM {
+							if (bin.Op == token.GEQ || bin.Op == token.GTR) && rejects(0, "ErrPayloadLenExceeded") {
+								lenOK = true
+							}
+							if (bin.Op == token.LSS || bin.Op == token.LEQ) && rejects(1, "ErrPayloadLenExceeded") {
+								lenOK = true
+							}
 						}
 					}
 				}
